@@ -64,7 +64,8 @@ func (eng *Engine) runtimeRoots() []*ssa.Function {
 	}
 	root := repoModule
 	for _, k := range []string{"(*Parser[G]).Parse", "(*Parser[G]).ParseString", "(*Parser[G]).ParseBytes", "(*Parser[G]).ParseFromLexer",
-		"(*Parser[G]).Lex", "(*Parser[G]).String", "(*Parser[G]).Lexer", "(*mappingLexerDef).Lex", "(*mappingLexerDef).Symbols", "(*mappingLexer).Next"} {
+		"(*Parser[G]).Lex", "(*Parser[G]).String", "(*Parser[G]).Lexer", "(*mappingLexerDef).Lex", "(*mappingLexerDef).Symbols", "(*mappingLexer).Next",
+		"Unquote$1", "Upper$1", "unquote", "FormatError", "(*UnexpectedTokenError).Error", "(*ParseError).Error"} {
 		add(root, k)
 	}
 	for _, k := range []string{"(*StatefulDefinition).Lex", "(*StatefulDefinition).LexString", "(*StatefulDefinition).Symbols", "(*StatefulDefinition).Rules",
@@ -252,6 +253,16 @@ func (eng *Engine) FrameScan() *frameResult {
 		}
 		for _, b := range f.Blocks {
 			for _, in := range b.Instrs {
+				// package-level state that is mutable by design (sync.Pool, sync.Map, a map variable ...) and used while
+				// parsing or lexing: results may then depend on earlier calls
+				for _, op := range in.Operands(nil) {
+					if g, ok := (*op).(*ssa.Global); ok && mutableGlobal(g) {
+						site := frameSite{Func: f.String(), Pos: eng.fset.Position(in.Pos()).String(), What: "use of package-level mutable state " + g.Name() + " (" + g.Type().(*types.Pointer).Elem().String() + ")", Verdict: "shared"}
+						site.Pos = strings.TrimPrefix(site.Pos, strings.TrimSuffix(eng.repo, "/")+"/")
+						res.Sites = append(res.Sites, site)
+						res.Violations = append(res.Violations, site)
+					}
+				}
 				var target ssa.Value
 				what := ""
 				switch t := in.(type) {
@@ -275,9 +286,7 @@ func (eng *Engine) FrameScan() *frameResult {
 				}
 				c := cat(target, 0)
 				site := frameSite{Func: f.String(), Pos: eng.fset.Position(in.Pos()).String(), What: what + " to " + target.Type().String(), Verdict: c}
-				if i := strings.Index(site.Pos, "/repo/"); i >= 0 {
-					site.Pos = site.Pos[i+6:]
-				}
+				site.Pos = strings.TrimPrefix(site.Pos, strings.TrimSuffix(eng.repo, "/")+"/")
 				res.Sites = append(res.Sites, site)
 				if c == "shared" {
 					res.Violations = append(res.Violations, site)
@@ -286,6 +295,40 @@ func (eng *Engine) FrameScan() *frameResult {
 		}
 	}
 	return res
+}
+
+// mutableGlobal: a package variable of the repository whose type exists to be mutated: anything from package sync
+// (Pool, Map, Mutex, Once ...), sync/atomic, or a map. (Slices, pointers and interfaces held in package variables are
+// read-only tables in this code base and are covered by the provenance of the writes themselves.)
+func mutableGlobal(g *ssa.Global) bool {
+	if g.Pkg == nil || !strings.HasPrefix(g.Pkg.Pkg.Path(), repoModule) {
+		return false
+	}
+	var mutable func(t types.Type, depth int) bool
+	mutable = func(t types.Type, depth int) bool {
+		if depth > 4 {
+			return false
+		}
+		switch u := t.(type) {
+		case *types.Named:
+			if pk := u.Obj().Pkg(); pk != nil && (pk.Path() == "sync" || pk.Path() == "sync/atomic") {
+				return true
+			}
+			return mutable(u.Underlying(), depth+1)
+		case *types.Pointer:
+			return mutable(u.Elem(), depth+1)
+		case *types.Map:
+			return true
+		case *types.Struct:
+			for i := 0; i < u.NumFields(); i++ {
+				if mutable(u.Field(i).Type(), depth+1) {
+					return true
+				}
+			}
+		}
+		return false
+	}
+	return mutable(g.Type().(*types.Pointer).Elem(), 0)
 }
 
 func (s frameSite) String() string {
